@@ -144,6 +144,12 @@ def worker(ctx, job):
                 prog = gen.gen_program(rng, gen.pickfeat(FEATS, fi))
             compare_one(ctx, prog, gen.WATCH, "random/%d" % fi)
             ctx.hit("random_programs")
+            # the same frames declared in another order (children before parents, `under x` after x): a program of its own
+            if fi != 100 and (seed >> 3) % 4 == 0:
+                p3 = gen.shuffle_frames(prog, random.Random(seed ^ 0xF4A3E))
+                if p3 is not None:
+                    compare_one(ctx, p3, gen.WATCH, "reordered/%d" % fi)
+                    ctx.hit("programs_with_frames_declared_in_another_order")
             # the same program with auxiliary framers turned into clones of moot framers: same reference run
             p2, alias = gen.cloneify(prog, random.Random(seed ^ 0x5EED))
             if alias:
